@@ -7,7 +7,7 @@
 cd /verif || exit 2
 for d in seeded/*/; do
     n=$(basename "$d")
-    if [ -n "$FILTER" ] && ! echo "$n" | grep -Eq "$FILTER"; then continue; fi
+    if [ -n "$FILTER" ] && ! echo "$n" | grep -Eq -- "$FILTER"; then continue; fi
     ids=$(python3 -c "import json;print(' '.join(json.load(open('$d/meta.json'))['check_with']))")
     out=$(TIER=${1:-quick} ./tools/try_seeded.sh "$d/patch.diff" $ids 2>&1)
     if grep -q "not-caught-out-of-domain" "$d/meta.json"; then echo "$n OUT-OF-DOMAIN (kept for the record, see meta.json)"; continue; fi
